@@ -20,11 +20,11 @@ var FuzzKeepText bool
 
 func FuzzNode(seed int64, steps int, idMul uint64) *Cluster {
 	rng := rand.New(rand.NewSource(seed))
-	o := Opts{Seed: seed, ElectionTick: []int{10, 5, 3}[rng.Intn(3)], MaxInflightMsgs: []int{1, 2, 4, 16}[rng.Intn(4)],
+	o := Opts{Seed: seed, ElectionTick: []int{10, 5, 3}[rng.Intn(3)], MaxInflightMsgs: []int{1, 2, 4, 16, 64}[rng.Intn(5)],
 		MaxSizePerMsg:             []uint64{0, 1, 40, 200, 1 << 20, ^uint64(0)}[rng.Intn(6)],
 		MaxCommittedSizePerReady:  []uint64{0, 1, 30, 200}[rng.Intn(4)],
 		MaxUncommittedEntriesSize: []uint64{0, 1, 30, 1000}[rng.Intn(4)],
-		MaxInflightBytes:          []uint64{0, 0, 300}[rng.Intn(3)],
+		MaxInflightBytes:          []uint64{0, 0, 300, 120, 2000}[rng.Intn(5)],
 		Async:                     rng.Intn(2) == 0, PreVote: []bool{rng.Intn(2) == 0}, CheckQuorum: []bool{rng.Intn(2) == 0},
 		ReadOnlyLease: rng.Intn(6) == 0, DisableProposalForwarding: rng.Intn(6) == 0, StepDownOnRemoval: rng.Intn(2) == 0,
 		BaseIndex: uint64(rng.Intn(4))}
@@ -124,6 +124,53 @@ func FuzzNode(seed int64, steps int, idMul uint64) *Cluster {
 		return c
 	}
 	_ = last
+	// One run in three starts with an election that the node wins (the peers answer its requests with grants), so
+	// that the leader-side paths (flow control, commit, reads, transfers, configuration changes) are fuzzed from
+	// the start instead of only when random messages happen to elect it.
+	if rng.Intn(3) == 0 {
+		drain := func() {
+			for k := 0; k < 4 && n.Alive && n.RN != nil && n.HasReady(); k++ {
+				c.processReady(n, 0)
+				if o.Async {
+					for len(n.AppendQ) > 0 && n.Alive {
+						c.appendThread(n)
+					}
+					for len(n.ApplyQ) > 0 && n.Alive {
+						c.applyThread(n)
+					}
+				}
+				c.Net = nil
+			}
+		}
+		n.Campaign()
+		for round := 0; round < 3 && n.Alive && n.RN != nil; round++ {
+			drain()
+			if n.RN == nil || !n.Alive {
+				break
+			}
+			bs := n.RN.BasicStatus()
+			var ty pb.MessageType
+			tm := bs.GetTerm()
+			switch bs.RaftState {
+			case raft.StatePreCandidate:
+				ty, tm = pb.MsgPreVoteResp, tm+1
+			case raft.StateCandidate:
+				ty = pb.MsgVoteResp
+			default:
+				round = 3
+				continue
+			}
+			for _, id := range ids {
+				if id != me && n.Alive && n.RN != nil {
+					n.Step(&pb.Message{Type: ty.Enum(), From: new(id), To: new(me), Term: new(tm)})
+				}
+			}
+		}
+		drain()
+		if n.RN != nil && n.Alive && n.RN.BasicStatus().RaftState == raft.StateLeader {
+			c.Stats["fuzz_started_as_leader"]++
+		}
+	}
 
 	randEnts := func(prev, pterm uint64) []*pb.Entry {
 		var es []*pb.Entry
@@ -314,7 +361,11 @@ func FuzzNode(seed int64, steps int, idMul uint64) *Cluster {
 		case r < 62:
 			n.Campaign()
 		case r < 66:
-			n.Propose([]byte(fmt.Sprintf("p%d", step)))
+			if rng.Intn(2) == 0 { // payloads large enough to meet the byte limits
+				n.Propose(append([]byte(fmt.Sprintf("p%d.", step)), make([]byte, rng.Intn(160))...))
+			} else {
+				n.Propose([]byte(fmt.Sprintf("p%d", step)))
+			}
 		case r < 68:
 			n.ReadIndex([]byte(fmt.Sprintf("r%d", rng.Intn(5))))
 		case r < 70:
